@@ -8,12 +8,13 @@ import numpy as np
 from vf import core
 from vf.core import CorrResult, Disagreement, Failure, coq_float, coq_z, coq_list
 from translator import temporal as tr
+from translator import dates as tr_dates
 from . import series_common as sc
 
 ID = "C13"
 PROPS = "props/C13.v"
-GENERATED = [tr.OUT]
-CASE_DEPS = ["lib/CaseUtil.vo", "model/Temporal.vo"]
+GENERATED = [tr.OUT, tr_dates.OUT]
+CASE_DEPS = ["lib/CaseUtil.vo", "model/Temporal.vo", "model/TemporalKw.vo"]
 ALLOWED_AXIOMS = {
     # Coq's classical real numbers (standard library)
     "sig_forall_dec", "sig_not_dec", "functional_extensionality_dep",
@@ -56,6 +57,7 @@ KW = {"yoy": "Yoy", "soy": "Soy", "eopy": "Eopy", "tty": "Tty"}
 
 def translate(ctx):
     tr.run()
+    tr_dates.run()          # gen/DatesGen.v: the daily create_soy/eopy/tty and the "yoy" arm used by model/TemporalKw.v
 
 
 # ------------------------------------------------------------------ generation
@@ -66,7 +68,59 @@ def _pool(rng):
     return vals
 
 
+def _daily_kw_start(rng, n) -> int:
+    """start ordinal of a daily series of n rows that straddles a year boundary (leap and common years)"""
+    import datetime as _dtm
+    y = rng.choice([1999, 2000, 2003, 2004, 2019, 2020, 2023, 2024, 2100, 1900])
+    return _dtm.date(y, 12, 31).toordinal() - rng.randint(-1, max(0, n - 1))
+
+
+def gen_daily_kw_case(rng, pool) -> dict:
+    """change / forward cumulation of a DAILY series with a keyword shift (model/TemporalKw.v)"""
+    long_ = rng.random() < 0.06
+    if rng.random() < 0.6:
+        kind = rng.choice(["diff", "diff_log", "roc", "pct"])
+        s = sc.rand_series_spec(rng, freq=365, pool=pool, positive=kind == "diff_log" or rng.random() < 0.5,
+                                maxlen=12, allow_empty=False, nv=1 if long_ else None)
+        if long_:
+            n = rng.randint(366, 400)
+            s["rows"] = [[float(rng.choice(pool)) if kind != "diff_log" else abs(float(rng.choice(pool))) or 1.0] for _ in range(n)]
+        s["start"] = _daily_kw_start(rng, len(s["rows"]))
+        return {"op": "change", "kind": kind, "by": rng.choice(list(KW)), "s": s, "kw": True}
+    kind = rng.choice(CUM)
+    s = sc.rand_series_spec(rng, freq=365, pool=pool, positive=rng.random() < 0.6, maxlen=10, allow_empty=False)
+    s["start"] = _daily_kw_start(rng, len(s["rows"]))
+    n = len(s["rows"])
+    q = rng.random()
+    if q < 0.3:
+        init = {"kind": "default"}
+    elif q < 0.5:
+        init = {"kind": "scalar", "v": float(rng.choice(pool))}
+    else:
+        x = sc.rand_series_spec(rng, freq=365, nv=rng.choice([1, s["nv"]]), pool=pool, positive=True, maxlen=14,
+                                allow_empty=False)
+        x["start"] = s["start"] + rng.randint(-4, 2)
+        init = {"kind": "series", "x": x}
+    by = rng.choice(["soy", "eopy", "tty", "tty", "yoy"])
+    if rng.random() < 0.4:
+        span = None
+    else:
+        a = s["start"] + rng.randint(-1, n // 2)
+        span = [a, a + rng.randint(0, n), 1]
+    return {"op": "cum", "kind": kind, "by": by, "init": init, "span": span, "s": s, "kw": True}
+
+
 def gen_case(rng, pool) -> dict:
+    r = rng.random()
+    if r < 0.12:
+        return gen_daily_kw_case(rng, pool)
+    c = _gen_case(rng, pool)
+    if isinstance(c.get("by"), str) and rng.random() < 0.5:
+        c["kw"] = True              # regular frequency, evaluated through the all-frequency model of model/TemporalKw.v
+    return c
+
+
+def _gen_case(rng, pool) -> dict:
     r = rng.random()
     if r < 0.45:
         kind = rng.choice(CHANGE)
@@ -228,7 +282,8 @@ def coq_by(by) -> str:
 def coq_case(case: dict) -> str:
     s = sc.coq_series(case["s"])
     if case["op"] == "change":
-        return f"change FA {CHANGE_K[case['kind']]} {coq_by(case['by'])} {s}"
+        fn = "change_kw" if case.get("kw") else "change"
+        return f"{fn} FA {CHANGE_K[case['kind']]} {coq_by(case['by'])} {s}"
     if case["op"] == "conv":
         return f"Ok (convert FA {CONV_K[case['kind']]} {s})"
     init = case["init"]
@@ -240,11 +295,12 @@ def coq_case(case: dict) -> str:
         i = f"(InitSeries FA {sc.coq_series(init['x'])})"
     sp = case["span"]
     spc = "SpanDefault" if sp is None else f"(SpanFromTo {coq_z(sp[0])} {coq_z(sp[1])} {coq_z(sp[2])})"
-    return f"temporal_cumulation FA {CUM_K[case['kind']]} {coq_by(case['by'])} {i} {spc} {s}"
+    fn = "temporal_cumulation_kw" if case.get("kw") else "temporal_cumulation"
+    return f"{fn} FA {CUM_K[case['kind']]} {coq_by(case['by'])} {i} {spc} {s}"
 
 
 HEADER = """From Coq Require Import ZArith List Bool PrimFloat.
-From Verif Require Import lib.Arith lib.Period lib.CaseUtil model.Series model.Temporal.
+From Verif Require Import lib.Arith lib.Period lib.CaseUtil model.Series model.Temporal model.TemporalKw.
 Import ListNotations.
 Open Scope Z_scope.
 Set Printing Width 1000000.
@@ -278,8 +334,16 @@ def correspondence(ctx) -> CorrResult:
     res = CorrResult()
     res.evaluations = n
     keyset = set()
-    dist = {"op": {}, "kind": {}, "errors": {}, "freq": {}, "empty_result": 0}
+    dist = {"op": {}, "kind": {}, "errors": {}, "freq": {}, "empty_result": 0, "daily_keyword": {}, "daily_keyword_nontrivial": 0,
+            "regular_keyword_through_kw_model": 0}
     for c, o in zip(cases, outs):
+        if c.get("kw") and c["s"]["freq"] == 365:
+            k_ = f"{c['op']}:{c['by']}"
+            dist["daily_keyword"][k_] = dist["daily_keyword"].get(k_, 0) + 1
+            if nontrivial(c, o):
+                dist["daily_keyword_nontrivial"] += 1
+        elif c.get("kw"):
+            dist["regular_keyword_through_kw_model"] += 1
         dist["op"][c["op"]] = dist["op"].get(c["op"], 0) + 1
         dist["kind"][c["kind"]] = dist["kind"].get(c["kind"], 0) + 1
         dist["freq"][str(c["s"]["freq"])] = dist["freq"].get(str(c["s"]["freq"]), 0) + 1
@@ -310,7 +374,8 @@ def correspondence(ctx) -> CorrResult:
             res.disagreements.append(Disagreement(f"cases shard {k}: unparsable output", None, out[-600:], None))
             continue
         for i in core.parse_nat_list(bodies[0]):
-            res.disagreements.append(Disagreement(f"{cs[i]['op']}:{cs[i]['kind']}", cs[i], "model result differs",
+            kwtag = f":{cs[i]['by']}" if isinstance(cs[i].get("by"), str) else ""
+            res.disagreements.append(Disagreement(f"{cs[i]['op']}:{cs[i]['kind']}{kwtag}", cs[i], "model result differs",
                                                   os_[i]))
     return res
 
